@@ -16,6 +16,18 @@ META = {
         "text": "compareData is shown to be the strict length-then-lexicographic order on all buffers up to 3 words (reference definition, antisymmetry, transitivity), and one inductive step on the real shrinker.accept from every state a run can produce shows: an accepted candidate is strictly smaller, fails at the same site (traceback), and replays to the same error; a rejected candidate changes nothing. shrink()'s passes change state only through accept, so the step covers any number of rounds and any deadline; well-foundedness of short-lex is a stated mathematical fact.",
         "note": _ENGINE_NOTE,
     },
+    "C04": {
+        "text": "Bounded symbolic model checking of record -> prune -> replay on the real streams, repeat/find/rejection loops and generators: for every recording of up to 10..16 symbolic words (any number of rejected attempts and forced stops inside the bound) the pruned recording replays to the same values, consumes every word and re-records to itself. Seed determinism is covered by C07's two-run harness.",
+        "note": _ENGINE_NOTE,
+    },
+    "C07": {
+        "text": "Bounded symbolic model checking of the real findBug/doCheck/checkTB with a symbolic 64-bit seed: the reported seed equals the failing case's seed, regenerates its draws, makes the first case of a re-run fail 'after 0 tests', is the one printed, and two runs from one seed are identical invocation by invocation. Bounded in N (2/3 test cases).",
+        "note": _ENGINE_NOTE,
+    },
+    "C08": {
+        "text": "Bounded symbolic model checking of the real T.Repeat/executeAction/runAction: the solver chooses action programs and the bitstream; every produced call trace is accepted by the automaton 'invariant first; invariant after each completed action; none after a skipped/invalid one; nothing after a falsification; only supplied actions, one at a time'; an always-skipping action set fails after validActionTries.",
+        "note": _ENGINE_NOTE,
+    },
     "C09": {
         "text": "Bounded symbolic model checking of the real findBug loop and checkTB verdict: for N up to 2/3 and every pass/skip/fail outcome sequence chosen by the solver, exactly N valid cases are run (or exactly 10*N skipped), nothing runs after the first falsified case, fewer than N valid cases fails with Errorf, and every failure ends in FailNow. Bounded in N (no inductive cut-point); the early-exit-near-deadline branch is assumed not taken.",
         "note": _ENGINE_NOTE,
